@@ -102,6 +102,8 @@ class Gen:
                 st["restat"] = True
             elif self.p("generator"):
                 st["generator"] = True
+                if r.random() < 0.4:
+                    st["gen_on_build"] = True      # bound on the build statement instead of the rule
             if self.p("early"):
                 st["early"] = True      # starts writing its outputs (and depfile) in place as soon as it runs
             if sc["pools"] and self.p("pools"):
@@ -182,6 +184,11 @@ class Gen:
             for ln in lines:
                 if ln.startswith("#include ") and ln[9:] in base_outs and ln[9:] not in st["ins"] and r.random() < 0.4:
                     st["oins"].append(ln[9:])
+            if r.random() < 0.5:
+                # the dyndep file anywhere among the order-only inputs, also behind one that is ready from the start (a header)
+                if dd in st["oins"] and r.random() < 0.5:
+                    st["oins"].insert(0, r.choice(leafs))
+                r.shuffle(st["oins"]) if r.random() < 0.5 else None
             served.append(st)
         # the scanner also has an input of its own (its configuration): touching it regenerates the dyndep file without
         # making any served statement out of date by itself
